@@ -70,13 +70,18 @@ def accept_formula(mn, mx, ms, im, mode):
     return z3.And(mx > 0, mn > 0, mn <= mx, ms < mx, im < mx, z3.Or(mode == 0, mode == 2, mode == 4, mode == 6))
 
 
-def ctor_harness(core):
+def ctor_harness(core, concrete_mode=False):
     def path(e):
         mn, mx, ms, im, ims, mode = I("min_length"), I("max_length"), I("mcs"), I("init_min"), I("init_max_silence"), I("mode")
         acc = accept_formula(mn, mx, ms, im, mode)
+        pymode = SymInt(mode)
+        if concrete_mode:
+            # every mode value in a small range as a real int (so that bit tricks in the mode test are executed, not modelled)
+            pymode = e.choose(27) - 9
+            e.add(mode == pymode)
         try:
             tk = core.StreamTokenizer(tok.validator, SymInt(mn), SymInt(mx), SymInt(ms), init_min=SymInt(im),
-                                      init_max_silence=SymInt(ims), mode=SymInt(mode))
+                                      init_max_silence=SymInt(ims), mode=pymode)
             outcome, goal = "accepted", acc
         except ValueError:
             outcome, goal = "rejected", z3.Not(acc)
@@ -112,6 +117,7 @@ def replay_ctor(c):
 
 
 def run(rep):
+    tok.VALIDATE[0] = replay_fn
     b = BOUNDS[rep.tier]
     L = loader.load()
     core = L.core
@@ -126,6 +132,9 @@ def run(rep):
     ex = explore(ctor_harness(core), workers=1)
     rep.add_exploration("constructor", ex, bounds={"arguments": "6 unbounded integers"})
     tok.handle_cex(rep, "constructor", ex, replay_ctor)
+    ex2 = explore(ctor_harness(core, concrete_mode=True), workers=4)
+    rep.add_exploration("constructor[mode in -9..17 concrete]", ex2, bounds={"arguments": "5 unbounded integers, mode enumerated"})
+    tok.handle_cex(rep, "constructor[mode concrete]", ex2, replay_ctor)
     outs = {r.get("outcome") for r in ex.results}
     rep.witness("constructor: some path accepts", "accepted" in outs)
     rep.witness("constructor: some path rejects", "rejected" in outs)
